@@ -33,7 +33,10 @@ ENGINES = {
                       ["abort", "fprintf", "memcpy", "memmove", "memset", "memcmp", "memchr", "strlen", "wmemcpy", "wmemmove", "wmemset", "wmemcmp", "wmemchr", "wcslen",
                        "snprintf", "strtol", "strtoul", "strtoll", "strtoull", "strtof", "strtod", "__cxa_guard_acquire", "__cxa_guard_release", "__cxa_guard_abort",
                        "pthread_mutex_lock", "pthread_mutex_trylock", "pthread_mutex_unlock", "pthread_once", "pthread_cond_wait", "pthread_cond_timedwait",
-                       "pthread_rwlock_rdlock", "pthread_rwlock_wrlock"]]},
+                       "pthread_rwlock_rdlock", "pthread_rwlock_wrlock",
+                       "setlocale", "localeconv", "strtok", "rand", "srand", "strerror", "gmtime", "localtime", "asctime", "ctime", "getenv", "setenv", "putenv", "unsetenv",
+                       "mblen", "mbtowc", "wctomb", "mbstowcs", "wcstombs", "mbrtowc", "wcrtomb", "mbrlen", "mbsrtowcs", "wcsrtombs", "toupper", "tolower", "towupper", "towlower",
+                       "sprintf", "vsnprintf"]]},
     "simC": {"sut": ["simC/simc.cpp", "simC/main.cpp"], "rt": ["simrt/heap.cpp", "simrt/clock_fatal.cpp"],
              "link": ["-Wl,--wrap=abort", "-Wl,--wrap=fprintf"], "bin": "simC"},
 }
